@@ -45,7 +45,7 @@ def obligations(tier, ctx):
     lim = 70000 if tier == "quick" else 140000
     nsz = len(consts.size_cases(lim, extra=ENV_SIZES))
     for kind in ((0, 3) if tier == "quick" else (0, 1, 2, 3, 8, 9)):
-        for pat in ((4,) if tier == "quick" else (0, 1, 2, 4, 5)):
+        for pat in ((4, 6, 7, 8) if tier == "quick" else (0, 1, 2, 4, 5, 6, 7, 8)):
             obs.append(Ob(name=f"writer_long_{kind}_p{pat}", params=[("k", "int")], pre=[f"0 <= k < {nsz}"], call=f"H.writer_long({kind}, k, {pat}, {lim})", backend="P", timeout=600,
                           family="size: payload of c-1, c, c+1 characters for the integer constants c of the source and environment sizes (4096, 8192, 65536, 131072)"))
     from symcheck.runner import mirror
